@@ -36,8 +36,11 @@ Definition validate_codename (files : list (list rentry)) : bool := scan [] (Lis
 Definition is_nil {A} (l : list A) : bool := match l with [] => true | _ => false end.
 
 (* true = valid; false = InvalidReleaseFilesException *)
+(* every codename needs at least one release file (since the fix for the
+   silently dropped codename); a repository without codenames has none *)
 Definition validate (codenames : list (list (list rentry))) : bool :=
-  forallb validate_codename codenames && existsb (fun files => negb (is_nil files)) codenames.
+  forallb (fun files => negb (is_nil files) && validate_codename files) codenames
+  && negb (is_nil codenames).
 
 (* download_release_files: [valid i] = verdict of the i-th fetch round.
    Result: (number of fetch rounds performed, success). *)
